@@ -270,7 +270,7 @@ Apply_Start(s) ==
 Enabled_Terminator(s) == s.phase = "loop" /\ s.args # <<>> /\ HasOpt(s, "PassDoubleDash") /\ Head(s.args) = <<DASH, DASH>>
 Apply_Terminator(s) ==
   LET s1 == SetRole(Pop(s), CurPos(s) + 1, "terminator") IN
-  [AddArgs(s1, s1.args, CurPos(s1) + 1) EXCEPT !.args = <<>>, !.phase = "defaults"]
+  [AddArgs(s1, s1.args, CurPos(s1) + 1) EXCEPT !.phase = "defaults"]      \* the loop ends; s.args itself is left as it is
 
 NonOpt(s) == s.phase = "loop" /\ s.args # <<>> /\ ~Enabled_Terminator(s) /\ ~IsOption(Head(s.args))
 
@@ -278,7 +278,7 @@ NonOpt(s) == s.phase = "loop" /\ s.args # <<>> /\ ~Enabled_Terminator(s) /\ ~IsO
 Enabled_PassAfterNonOption(s) == NonOpt(s) /\ HasOpt(s, "PassAfterNonOption") /\ Resolve(s.d, s.cmd, Head(s.args)) = 0
 Apply_PassAfterNonOption(s) ==
   LET s1 == Pop(s) IN
-  [AddArgs(s1, <<s1.cur>> \o s1.args, CurPos(s1)) EXCEPT !.args = <<>>, !.phase = "defaults"]
+  [AddArgs(s1, <<s1.cur>> \o s1.args, CurPos(s1)) EXCEPT !.phase = "defaults"]
 
 \* --- a plain token while positional fields are pending (parser.go:676-678)
 Enabled_NonOptPositional(s) == NonOpt(s) /\ ~Enabled_PassAfterNonOption(s) /\ s.posq # <<>>
